@@ -37,6 +37,15 @@ def scenarios(tier):
     cased = [{"command": "ExcludeRegion", "parameterPattern": "^\\s*Skirt(\\s|$)", "action": "disable_exclusion", "description": ""},
              {"command": "ExcludeRegion", "parameterPattern": "^\\s*(enable|on)(\\s|$)", "action": "enable_exclusion", "description": ""}]
     return [
+        Scenario("c14-unanchored", World,
+                 dict(base, regions=["R"], at=[
+                     {"command": "ExcludeRegion", "parameterPattern": "off", "action": "disable_exclusion", "description": ""},
+                     {"command": "ExcludeRegion", "parameterPattern": "on", "action": "enable_exclusion", "description": ""}]),
+                 moves[:6] + [("AT", "ExcludeRegion", "off"), ("AT", "ExcludeRegion", "on"),
+                              ("AT", "ExcludeRegion", "off for the second copy"), ("AT", "ExcludeRegion", "note: not on"),
+                              ("AT", "ExcludeRegion", "  off")],
+                 max_states=150000 if q else 3000000,
+                 note="patterns without ^: they match at the start of the parameters only (re.match)"),
         Scenario("c14-case", World, dict(base, at=cased, regions=["R"]),
                  moves[:6] + [("AT", "ExcludeRegion", "Skirt"), ("AT", "ExcludeRegion", "skirt"), ("AT", "ExcludeRegion", "ON"),
                               ("AT", "ExcludeRegion", "on"), ("AT", "excluderegion", "on")],
